@@ -167,11 +167,12 @@ Fixpoint run_ops (fx : bool) (xs : list op) (z : st * kernel * kernel) : bool :=
   end.
 
 Record case := mkCase {
-  c_fx : bool;                                     (* the tree has the repair of fixes/C16-*.patch (probed by the driver) *)
+  c_fx : bool;                                     (* the tree has fixes/C16-requeue-temp-set-on-write-failure.patch (probed by the driver) *)
+  c_fx2 : bool;                                    (* the tree has fixes/C16-temp-set-flags.patch (probed by the driver) *)
   c_k0 : list (name * (meta * list member));       (* starting kernel: anything *)
   c_ops : list op
 }.
 
 Definition check_case (c : case) : bool * bool :=
   let k0 := mk_kernel (c_k0 c) in
-  (run_ops (c_fx c) (c_ops c) (init_st, k0, k0), ok_history k0 (c_ops c)).
+  (run_ops (c_fx c) (c_ops c) (set_fix2 (c_fx2 c) init_st, k0, k0), ok_history k0 (c_ops c)).
